@@ -1,6 +1,7 @@
 package main
 
 import (
+	"fmt"
 	"go/token"
 	"strings"
 
@@ -13,7 +14,7 @@ func init() {
 		Explain: "Decided clauses: R1 every non-empty value reaching Access-Control-Allow-Origin is either \"*\" defined under allowAllOrigins or the lower-cased request Origin defined under an exact-list match, " +
 			"a subdomain.match success or AllowOriginsFunc success; the header is set nowhere else; R2 Allow-Credentials is unreachable from the allowOrigin == \"*\" edge and construction refuses AllowCredentials with all origins; " +
 			"R3 past the Next skip every return is preceded by Vary: Origin unless all origins are allowed; R4 from the preflight edge c.Next() is unreachable and the reply is SendStatus(204) after the simple headers. " +
-			"Not decided: string semantics of subdomain.match for look-alike hosts and the wildcard split offsets (value-level; a structural rule was considered and not armed, see DESIGN §3 C19), url.Parse.",
+			"R5 the offsets that split a `scheme://*.domain` entry agree with the positions of `*` and `.` in the literal that located them, so the stored suffix starts with the label separator. Not decided: string semantics of subdomain.match beyond that (prefix/suffix comparison itself), url.Parse.",
 		Assume: []string{"c.Set writes exactly the given header"},
 		Run:    runC19,
 	})
@@ -298,6 +299,132 @@ func runC19(r *Run) {
 				}
 			}
 			r.check(found, "handler:preflight-sets-"+hdr, r.pos(pre.If), hdr+" is set in the preflight region", hdr+" is never set for preflight requests")
+		}
+	})
+
+	r.rule("R5", "the wildcard split keeps the label boundary: the offsets applied to a `scheme://*.domain` entry agree with the positions of `*` and `.` in the literal that located them (E5)", func() {
+		f := r.Fn(corsPkg, "New")
+		var idx *ssa.Call
+		lit := ""
+		for _, c := range callsMatching(f, false, nameIs("strings.Index")) {
+			if s, ok := constString(asConst(c.Common.Args[1])); ok && strings.Contains(s, "*") {
+				idx, _ = c.Instr.(*ssa.Call)
+				lit = s
+			}
+		}
+		r.need(idx != nil, "New locates the wildcard with strings.Index(entry, literal containing '*')")
+		star := strings.IndexByte(lit, '*')
+		noStar := lit[:star] + lit[star+1:]
+		r.need(star+1 < len(lit) && lit[star+1] == '.', "the literal is `…*.`: the wildcard stands for whole labels")
+		raw := idx.Call.Args[0]
+		n := 0
+		var bad []string
+		for _, b := range f.Blocks {
+			for _, in := range b.Instrs {
+				sl, ok := in.(*ssa.Slice)
+				if !ok {
+					continue
+				}
+				ref := noStar // a string from which the `*` was cut out
+				what := "normalised"
+				if sl.X == raw {
+					ref, what = lit, "raw"
+				}
+				if sl.High != nil {
+					if v, c := splitOffset(sl.High); v == ssa.Value(idx) {
+						n++
+						// the prefix ends right where the wildcard begins
+						if int(c) != star {
+							bad = append(bad, fmt.Sprintf("%s: %s[:i+%d] does not end at the wildcard (offset %d)", r.pos(in), what, c, star))
+						}
+					}
+				}
+				if sl.Low != nil {
+					if v, c := splitOffset(sl.Low); v == ssa.Value(idx) {
+						n++
+						// the suffix starts at the dot that follows the wildcard
+						if int(c) >= len(ref) || ref[c] != '.' || (what == "raw" && int(c) != star+1) || (what == "normalised" && int(c) != star) {
+							bad = append(bad, fmt.Sprintf("%s: %s[i+%d:] does not start at the '.' that follows the wildcard", r.pos(in), what, c))
+						}
+					}
+				}
+			}
+		}
+		r.atLeast("wildcard split offsets", n, 4)
+		r.check(len(bad) == 0, "New:wildcard-split-offsets", r.pos(idx), fmt.Sprintf("%d offsets relative to Index(entry, %q): prefixes end at the `*`, suffixes start at the following `.`", n, lit),
+			"the stored suffix of a wildcard entry no longer begins with the label separator: `https://*.example.com` then also allows `https://evilexample.com` ("+strings.Join(bad, "; ")+")")
+
+		// the matcher itself: true only for prefix ∧ suffix (the length test is implied: a prefix ending in "://" and a
+		// suffix starting with "." cannot overlap, so it is not demanded)
+		m := firstFn(r, corsPkg, "(subdomain).match", "(*subdomain).match")
+		type need struct {
+			name string
+			is   func(v ssa.Value) bool
+		}
+		callOn := func(fn, field string) func(v ssa.Value) bool {
+			return func(v ssa.Value) bool {
+				c, ok := v.(*ssa.Call)
+				if !ok || calleeName(&c.Call) != fn || len(c.Call.Args) != 2 {
+					return false
+				}
+				_, isParam := stripValue(c.Call.Args[0]).(*ssa.Parameter)
+				return isParam && dependsOn(c.Call.Args[1], func(x ssa.Value) bool {
+					fv := fieldOfValue(x)
+					return fv != nil && fv.Name() == field
+				}) != nil
+			}
+		}
+		needs := []need{
+			{"HasPrefix(origin, prefix)", callOn("strings.HasPrefix", "prefix")},
+			{"HasSuffix(origin, suffix)", callOn("strings.HasSuffix", "suffix")},
+		}
+		var rets []*ssa.Return
+		for _, in := range instrsWhere(m, isReturn) {
+			rets = append(rets, in.(*ssa.Return))
+		}
+		r.need(len(rets) == 1, "match has a single return")
+		type leaf struct {
+			v    ssa.Value
+			from *ssa.BasicBlock
+		}
+		var leaves []leaf
+		rv := retOperand(rets[0], 0)
+		if ph, ok := rv.(*ssa.Phi); ok {
+			for k, e := range ph.Edges {
+				leaves = append(leaves, leaf{e, ph.Block().Preds[k]})
+			}
+		} else {
+			leaves = append(leaves, leaf{rv, rets[0].Block()})
+		}
+		for _, nd := range needs {
+			var pv ssa.Value
+			for _, b := range m.Blocks {
+				for _, in := range b.Instrs {
+					if v, ok := in.(ssa.Value); ok && nd.is(v) {
+						pv = v
+					}
+				}
+			}
+			okN := pv != nil
+			if okN {
+				cut := map[edge]bool{}
+				for _, e := range trueEdgesOf(m, pv) {
+					cut[e] = true
+				}
+				live := blocksReachable(m.Blocks[0], cut, nil)
+				for _, lf := range leaves {
+					if b, ok := constBool(asConst(lf.v)); ok && !b {
+						continue
+					}
+					if lf.v == pv {
+						continue
+					}
+					if live[lf.from] {
+						okN = false
+					}
+				}
+			}
+			r.check(okN, "match:requires-"+nd.name, r.fpos(m), "match can only answer true when "+nd.name+" holds", "subdomain.match can answer true without "+nd.name+": an origin that merely contains the allowed domain, or is too short to hold both parts, is allowed")
 		}
 	})
 }
